@@ -60,6 +60,15 @@ def run_history(cls, mode, creator_kind, history):
         if creator_kind == "wrong":
             return object()
         return c()
+    if creator_kind == "falsy":
+        class FalsyFactory(object):             # a callable factory object that is falsy (container-like): still THE instance creator
+            def __len__(self):
+                return 0
+
+            def __call__(self, c):
+                log.append("creator")
+                return c()
+        creator = FalsyFactory()
     cls._pyroInstancing = (mode, None if creator_kind == "none" else creator)
     d = mk_daemon()
     conns = [su.SocketConnection(FakeSock()), su.SocketConnection(FakeSock())]
@@ -90,7 +99,7 @@ def run_history(cls, mode, creator_kind, history):
             return dict(desc, violated="session: instance shared between connections")
     if mode == "percall" and len(ids) != len(allinst):
         return dict(desc, violated="percall: instance reused")
-    if creator_kind == "ok" and len(log) != len(ids):
+    if creator_kind in ("ok", "falsy") and len(log) != len(ids):
         return dict(desc, violated="creator called %d times for %d instances" % (len(log), len(ids)))
     for c in conns:
         c.close()
@@ -232,7 +241,7 @@ def main(mode):
     maxh = 3 if mode != "thorough" else 5
     for cls in shapes():
         for m in ("single", "session", "percall"):
-            for ck in ("none", "ok", "wrong", "raise"):
+            for ck in ("none", "ok", "wrong", "raise", "falsy"):
                 for n in range(1, maxh + 1):
                     for h in itertools.product((0, 1), repeat=n):
                         runs += 1
@@ -248,7 +257,7 @@ def main(mode):
         d.close()
     rep = {"runs": runs, "failing_input": fail, "wall_s": round(time.time() - t0, 2),
            "bounded": [{"what": "real Daemon._getInstance over instance shapes x modes x creators x call histories on two connections; forced 2-thread schedule for 'single'; line-granular two-thread schedules (strict alternation, and 'A runs k lines, then B') of two concurrent first calls",
-                        "bound": "5 shapes x 3 modes x 4 creator kinds x all histories of length <= %d over 2 connections" % maxh, "runs": runs,
+                        "bound": "5 shapes x 3 modes x 5 creator kinds (none, ok, wrong type, raising, falsy callable object) x all histories of length <= %d over 2 connections" % maxh, "runs": runs,
                         "failures": 0 if fail is None else 1}]}
     print(json.dumps(rep))
     return 0
